@@ -264,6 +264,7 @@ pub fn observe(m: &mut Mdl, c: &Call, r: &mut Rules, w: usize) {
             m.in_unacked.clear();
             m.out_n = 0;
             m.connack_owed = false;
+            m.peer_disc = false;
             r.label("closed");
         }
         CallKind::RecvPartial(_) => {
@@ -360,6 +361,8 @@ pub fn observe(m: &mut Mdl, c: &Call, r: &mut Rules, w: usize) {
     // ---- any close request: the application closes the transport next
     if c.has_close() {
         m.close_pending = true;
+        // the library itself asked for the close: nothing more is fed on this transport
+        m.peer_disc = false;
     }
 
     // ---- release accounting (C08)
@@ -934,6 +937,7 @@ fn on_recv(m: &mut Mdl, pre: &Mdl, ap: &AP, frame: &[u8], c: &Call, r: &mut Rule
             // the peer closes the transport after DISCONNECT
             if delivered {
                 m.close_pending = true;
+                m.peer_disc = true;
             }
         }
         _ => {}
@@ -1059,6 +1063,27 @@ pub fn after_step<P: Pid>(m: &mut Mdl, pre_m: &Mdl, pre: &VerifState, post: &Ver
         // resynchronise
         let owners = m.ids.clone();
         m.ids = in_use.iter().map(|i| (*i, owners.get(i).copied().unwrap_or(Owner::App))).collect();
+    }
+    // C08 / C06: the library only awaits an acknowledgement for an identifier whose exchange exists
+    // (a stale entry would let a stray acknowledgement "match" and release someone else's identifier)
+    for (set, name, want) in [
+        (&post.pid_puback, "PUBACK", &[Owner::Pub1][..]),
+        (&post.pid_pubrec, "PUBREC", &[Owner::Pub2][..]),
+        (&post.pid_pubcomp, "PUBCOMP", &[Owner::Rel, Owner::RelOwed][..]),
+        (&post.pid_suback, "SUBACK", &[Owner::Sub][..]),
+        (&post.pid_unsuback, "UNSUBACK", &[Owner::Unsub][..]),
+    ] {
+        // (not judged between a failed transport write and the notify_closed() that must follow it:
+        // the application released the identifier itself and the close drops the entry)
+        if m.close_pending {
+            break;
+        }
+        for id in set.iter() {
+            let o = m.ids.get(&(*id as u32));
+            if !o.map(|o| want.contains(o)).unwrap_or(false) {
+                r.viol("c08.awaited-without-exchange", pre_m, format!("the connection awaits a {name} for identifier {id}, but no such exchange is in flight (holder: {o:?})"));
+            }
+        }
     }
     // C07: exported handled set == ids notified and not yet released
     let real_handled: BTreeSet<u32> = post.qos2_publish_handled.iter().map(|x| *x as u32).collect();
